@@ -256,6 +256,7 @@ def loop_over(interp, body, env, w, guard, item, target=None, getter=None):
     # queues reachable through object attributes are not used by the code under contract
     before = [len(c) for c in collectors]
     templates = [[] for _ in collectors]
+    escapes = []
     ex = Explorer(max_paths=32)
     ex.notes = outer.notes
     ex.pending = [[]]
@@ -282,8 +283,14 @@ def loop_over(interp, body, env, w, guard, item, target=None, getter=None):
             interp.ctx = outer
             raise Undecided("break/return inside a loop over a symbolic sequence")
         except SymRaise as e:
+            # an exception escapes the body for positions satisfying this path's branch conditions: the whole loop
+            # (and the function around it) is aborted as soon as such a position is reached
             interp.ctx = outer
-            raise Undecided(f"an exception escapes the body of a loop over a symbolic sequence: {e.exc}")
+            bids = {b.get_id() for b in ctx.branches}
+            escapes.append((z3.And(guard, *[f for f in ctx.pc[len(base_pc) :] if f.get_id() in bids]), e.exc))
+            for i, c in enumerate(collectors):
+                del c[before[i] :]
+            continue
         finally:
             interp.ctx = outer
         bids = {b.get_id() for b in ctx.branches}
@@ -299,6 +306,14 @@ def loop_over(interp, body, env, w, guard, item, target=None, getter=None):
                 raise Undecided("more than one append per iteration and collector")
             if new:
                 templates[i].append((z3.And(guard, *local), new[0]))
+    if escapes:
+        cond = z3.Or(*[c for c, _ in escapes])
+        some = z3.Bool(fresh_name("some_iteration_raises"))
+        wit = z3.Int(fresh_name("raising_position"))
+        outer.assume(z3.Implies(some, z3.And(wit >= 0, wit < w.N, z3.substitute(cond, (jg, wit)))))
+        outer.assume(z3.Implies(z3.And(jg >= 0, jg < w.N, cond), some))
+        if outer.branch(V(some), "an-iteration-raises"):
+            raise SymRaise(escapes[0][1])
     for c, tpl in zip(collectors, templates):
         if tpl:
             c.append(Mapped(w, tpl))
